@@ -426,7 +426,7 @@ class TlGenerator:
         with open(file_path, 'r') as f:
             temp = ''
             for line in f:
-                stripped = line.strip()
+                stripped = line.split('//')[0].strip()
 
                 if not stripped or stripped.startswith('//') or stripped.startswith('---'):
                     continue
